@@ -278,6 +278,302 @@ fn sweep_codes(ctx: &Ctx, n_random: u64) {
     ctx.bulk("os-codes", evals, evals, &[], vec![json!({"code": codes[2]}), json!({"code": codes[codes.len() - 1]})]);
 }
 
+// ---------------------------------------------------------------------------------------------
+// the generated half: #[int_result] methods of a #[cglue_trait], called through opaque objects
+// and through the raw vtable entries (what a C caller sees)
+
+pub mod wrapped {
+    use super::{UserErr, POISON};
+    use cglue::prelude::v1::*;
+    use cglue::trait_group::GetContainer;
+    use proptest::prelude::*;
+    use serde::{Deserialize, Serialize};
+    use std::mem::MaybeUninit;
+    use std::num::NonZeroI32;
+    use verifkit::tok::{self, HeapTok};
+    use verifkit::{ensure, fail, tracked_confirmed, CaseResult, Fail, Info};
+
+    fn uerr(code: i32) -> UserErr {
+        UserErr(NonZeroI32::new(code).unwrap_or(NonZeroI32::new(7).unwrap()))
+    }
+    fn ioerr(code: i32) -> std::io::Error {
+        std::io::Error::from_raw_os_error(if code == 0 { 5 } else { code })
+    }
+
+    #[cglue_trait]
+    #[int_result]
+    pub trait IntRes {
+        fn unit_user(&self, ok: bool, code: i32) -> Result<(), UserErr>;
+        fn val_user(&self, ok: bool, code: i32, v: u64) -> Result<u64, UserErr>;
+        fn unit_io(&mut self, ok: bool, code: i32) -> Result<(), std::io::Error>;
+        fn val_io(&mut self, ok: bool, code: i32, v: u64) -> Result<u64, std::io::Error>;
+        fn unit_unit(&self, ok: bool) -> Result<(), ()>;
+        fn tok_user(&self, ok: bool, code: i32, val: u64) -> Result<HeapTok, UserErr>;
+        #[no_int_result]
+        fn plain(&self, ok: bool, code: i32, v: u64) -> Result<u64, i32>;
+    }
+
+    /// the same shapes on a trait that is not int_result as a whole
+    #[cglue_trait]
+    pub trait IntResMix {
+        #[int_result]
+        fn m_unit_user(&self, ok: bool, code: i32) -> Result<(), UserErr>;
+        #[int_result]
+        fn m_val_io(&self, ok: bool, code: i32, v: u64) -> Result<u64, std::io::Error>;
+        #[int_result]
+        fn m_fin_unit_user(self, ok: bool, code: i32) -> Result<(), UserErr>;
+    }
+
+    pub struct Imp(pub u64);
+    impl IntRes for Imp {
+        fn unit_user(&self, ok: bool, code: i32) -> Result<(), UserErr> {
+            if ok { Ok(()) } else { Err(uerr(code)) }
+        }
+        fn val_user(&self, ok: bool, code: i32, v: u64) -> Result<u64, UserErr> {
+            if ok { Ok(v ^ self.0) } else { Err(uerr(code)) }
+        }
+        fn unit_io(&mut self, ok: bool, code: i32) -> Result<(), std::io::Error> {
+            self.0 = self.0.wrapping_add(1);
+            if ok { Ok(()) } else { Err(ioerr(code)) }
+        }
+        fn val_io(&mut self, ok: bool, code: i32, v: u64) -> Result<u64, std::io::Error> {
+            self.0 = self.0.wrapping_add(1);
+            if ok { Ok(v ^ self.0) } else { Err(ioerr(code)) }
+        }
+        fn unit_unit(&self, ok: bool) -> Result<(), ()> {
+            if ok { Ok(()) } else { Err(()) }
+        }
+        fn tok_user(&self, ok: bool, code: i32, val: u64) -> Result<HeapTok, UserErr> {
+            if ok { Ok(HeapTok::new(val)) } else { Err(uerr(code)) }
+        }
+        fn plain(&self, ok: bool, code: i32, v: u64) -> Result<u64, i32> {
+            if ok { Ok(v) } else { Err(code) }
+        }
+    }
+    impl IntResMix for Imp {
+        fn m_unit_user(&self, ok: bool, code: i32) -> Result<(), UserErr> {
+            if ok { Ok(()) } else { Err(uerr(code)) }
+        }
+        fn m_val_io(&self, ok: bool, code: i32, v: u64) -> Result<u64, std::io::Error> {
+            if ok { Ok(v ^ self.0) } else { Err(ioerr(code)) }
+        }
+        fn m_fin_unit_user(self, ok: bool, code: i32) -> Result<(), UserErr> {
+            if ok { Ok(()) } else { Err(uerr(code)) }
+        }
+    }
+
+    #[derive(Debug, Clone, Serialize, Deserialize)]
+    pub struct WCase {
+        /// 0 unit_user 1 val_user 2 unit_io 3 val_io 4 unit_unit 5 tok_user 6 plain 7 m_unit_user 8 m_val_io 9 m_fin_unit_user
+        pub method: u8,
+        pub ok: bool,
+        pub code: i32,
+        pub v: u64,
+        /// 0 boxed, 1 boxed with arc context, 2 by mutable reference
+        pub container: u8,
+        /// call the vtable entry itself (C view) instead of the trait method of the opaque object
+        pub raw: bool,
+    }
+
+    fn io_sig<T: PartialEq + Clone>(r: &Result<T, std::io::Error>) -> Result<T, Option<i32>> {
+        match r {
+            Ok(v) => Ok(v.clone()),
+            Err(e) => Err(e.raw_os_error()),
+        }
+    }
+
+    fn through<O: IntRes>(o: &mut O, d: &mut Imp, c: &WCase) -> Result<(), Fail> {
+        match c.method % 7 {
+            0 => {
+                let (w, r) = (o.unit_user(c.ok, c.code), d.unit_user(c.ok, c.code));
+                ensure!(w == r, "generated-wrapper", "unit_user({}, {}): through the object {:?}, direct {:?}", c.ok, c.code, w, r);
+            }
+            1 => {
+                let (w, r) = (o.val_user(c.ok, c.code, c.v), d.val_user(c.ok, c.code, c.v));
+                ensure!(w == r, "generated-wrapper", "val_user({}, {}): through the object {:?}, direct {:?}", c.ok, c.code, w, r);
+            }
+            2 => {
+                let (w, r) = (o.unit_io(c.ok, c.code), d.unit_io(c.ok, c.code));
+                ensure!(io_sig(&w) == io_sig(&r), "generated-wrapper", "unit_io({}, {}): through the object {:?}, direct {:?}", c.ok, c.code, w, r);
+            }
+            3 => {
+                let (w, r) = (o.val_io(c.ok, c.code, c.v), d.val_io(c.ok, c.code, c.v));
+                ensure!(io_sig(&w) == io_sig(&r), "generated-wrapper", "val_io({}, {}): through the object {:?}, direct {:?}", c.ok, c.code, w, r);
+            }
+            4 => {
+                let (w, r) = (o.unit_unit(c.ok), d.unit_unit(c.ok));
+                ensure!(w == r, "generated-wrapper", "unit_unit({}): through the object {:?}, direct {:?}", c.ok, w, r);
+            }
+            5 => {
+                let before = tok::issued();
+                let w = o.tok_user(c.ok, c.code, c.v);
+                let made = tok::issued() - before;
+                ensure!(made == c.ok as usize, "generated-wrapper", "tok_user({}): {} success values were created", c.ok, made);
+                match (&w, c.ok) {
+                    (Ok(t), true) => ensure!(t.id() as usize == before && t.val() == c.v, "generated-wrapper", "tok_user: a different value came back"),
+                    (Err(e), false) => ensure!(*e == uerr(c.code), "generated-wrapper", "tok_user({}): error decoded as {:?}", c.code, e),
+                    _ => fail!("generated-wrapper", "tok_user({}, {}): variant changed: {:?}", c.ok, c.code, w.as_ref().map(|_| ())),
+                }
+                drop(w);
+                if c.ok {
+                    ensure!(tok::drops(before as u32) == 1, "generated-wrapper", "tok_user: success value dropped {} times", tok::drops(before as u32));
+                }
+            }
+            _ => {
+                let (w, r) = (o.plain(c.ok, c.code, c.v), d.plain(c.ok, c.code, c.v));
+                ensure!(w == r, "generated-wrapper", "plain({}, {}): through the object {:?}, direct {:?}", c.ok, c.code, w, r);
+            }
+        }
+        Ok(())
+    }
+
+    /// the entries themselves, as C sees them: status code + output slot
+    fn raw_entries<'a, O>(o: &mut O, c: &WCase) -> Result<(), Fail>
+    where
+        O: GetContainer + cglue::trait_group::GetVtblBase<IntResVtbl<'a, <O as GetContainer>::ContType>>,
+        <O as GetContainer>::ContType: 'a,
+    {
+        let vt = o.get_vtbl_base();
+        macro_rules! slot_rule {
+            ($code:expr, $slot:expr, $t:ty, $name:expr) => {{
+                let bytes = unsafe { std::slice::from_raw_parts($slot.as_ptr() as *const u8, std::mem::size_of::<$t>()) };
+                ensure!(($code == 0) == c.ok, "generated-zero-iff-ok", "vtable entry {} returned {} for {}", $name, $code, if c.ok { "Ok" } else { "Err" });
+                if !c.ok {
+                    ensure!(bytes.iter().all(|b| *b == POISON), "generated-slot-touched", "vtable entry {} wrote to the output slot although it reports an error", $name);
+                }
+            }};
+        }
+        match c.method % 7 {
+            0 => {
+                let code = unsafe { (vt.unit_user())(o.ccont_ref(), c.ok, c.code) };
+                ensure!((code == 0) == c.ok, "generated-zero-iff-ok", "vtable entry unit_user returned {} for {}", code, if c.ok { "Ok" } else { "Err" });
+                if !c.ok {
+                    ensure!(code == uerr(c.code).0.get(), "generated-code", "vtable entry unit_user returned {} for the error code {}", code, uerr(c.code).0);
+                }
+            }
+            1 => {
+                let mut slot = MaybeUninit::<u64>::uninit();
+                unsafe { std::ptr::write_bytes(slot.as_mut_ptr() as *mut u8, POISON, 8) };
+                let code = unsafe { (vt.val_user())(o.ccont_ref(), c.ok, c.code, c.v, &mut slot) };
+                slot_rule!(code, slot, u64, "val_user");
+                if !c.ok {
+                    ensure!(code == uerr(c.code).0.get(), "generated-code", "vtable entry val_user returned {} for the error code {}", code, uerr(c.code).0);
+                }
+            }
+            2 => {
+                let code = unsafe { (vt.unit_io())(o.ccont_mut(), c.ok, c.code) };
+                ensure!((code == 0) == c.ok, "generated-zero-iff-ok", "vtable entry unit_io returned {} for {}", code, if c.ok { "Ok" } else { "Err" });
+                if !c.ok && c.code != 0 {
+                    ensure!(code == c.code, "generated-code", "vtable entry unit_io returned {} for the OS error {}", code, c.code);
+                }
+            }
+            3 => {
+                let mut slot = MaybeUninit::<u64>::uninit();
+                unsafe { std::ptr::write_bytes(slot.as_mut_ptr() as *mut u8, POISON, 8) };
+                let code = unsafe { (vt.val_io())(o.ccont_mut(), c.ok, c.code, c.v, &mut slot) };
+                slot_rule!(code, slot, u64, "val_io");
+                if !c.ok && c.code != 0 {
+                    ensure!(code == c.code, "generated-code", "vtable entry val_io returned {} for the OS error {}", code, c.code);
+                }
+            }
+            4 => {
+                let code = unsafe { (vt.unit_unit())(o.ccont_ref(), c.ok) };
+                ensure!((code == 0) == c.ok, "generated-zero-iff-ok", "vtable entry unit_unit returned {} for {}", code, if c.ok { "Ok" } else { "Err" });
+            }
+            5 => {
+                let before = tok::issued();
+                let mut slot = MaybeUninit::<HeapTok>::uninit();
+                unsafe { std::ptr::write_bytes(slot.as_mut_ptr() as *mut u8, POISON, std::mem::size_of::<HeapTok>()) };
+                let code = unsafe { (vt.tok_user())(o.ccont_ref(), c.ok, c.code, c.v, &mut slot) };
+                slot_rule!(code, slot, HeapTok, "tok_user");
+                let made = tok::issued() - before;
+                if code == 0 {
+                    ensure!(made == 1, "generated-slot-value", "vtable entry tok_user reports success and created {} values", made);
+                    let t = unsafe { slot.assume_init() };
+                    ensure!(t.id() as usize == before && t.val() == c.v, "generated-slot-value", "vtable entry tok_user put a different value into the slot");
+                    ensure!(tok::drops(before as u32) == 0, "generated-slot-value", "the success value was dropped before the caller took it");
+                    drop(t);
+                    ensure!(tok::drops(before as u32) == 1, "generated-slot-value", "tok_user: success value dropped {} times", tok::drops(before as u32));
+                } else {
+                    ensure!(made == 0 || tok::drops(before as u32) == 1, "generated-slot-value", "a value created on the error path was not dropped");
+                }
+            }
+            _ => {}
+        }
+        Ok(())
+    }
+
+    fn mix<O: IntResMix>(o: O, d: Imp, c: &WCase) -> Result<(), Fail> {
+        match c.method % 3 {
+            0 => {
+                let (w, r) = (o.m_unit_user(c.ok, c.code), d.m_unit_user(c.ok, c.code));
+                ensure!(w == r, "generated-wrapper", "m_unit_user({}, {}): through the object {:?}, direct {:?}", c.ok, c.code, w, r);
+            }
+            1 => {
+                let (w, r) = (o.m_val_io(c.ok, c.code, c.v), d.m_val_io(c.ok, c.code, c.v));
+                ensure!(io_sig(&w) == io_sig(&r), "generated-wrapper", "m_val_io({}, {}): through the object {:?}, direct {:?}", c.ok, c.code, w, r);
+            }
+            _ => {
+                let (w, r) = (o.m_fin_unit_user(c.ok, c.code), d.m_fin_unit_user(c.ok, c.code));
+                ensure!(w == r, "generated-wrapper", "m_fin_unit_user({}, {}): through the object {:?}, direct {:?}", c.ok, c.code, w, r);
+            }
+        }
+        Ok(())
+    }
+
+    pub fn check(c: &WCase) -> CaseResult {
+        let (r, rep) = tracked_confirmed(|| -> Result<(), Fail> {
+            let seed = c.v.rotate_left(7);
+            let mut direct = Imp(seed);
+            if c.method % 10 >= 7 {
+                return match c.container % 2 {
+                    0 => mix(trait_obj!(Imp(seed) as IntResMix), direct, c),
+                    _ => {
+                        let ctx = CArc::from(5u8);
+                        mix(trait_obj!((Imp(seed), ctx) as IntResMix), direct, c)
+                    }
+                };
+            }
+            match c.container % 3 {
+                0 => {
+                    let mut o = trait_obj!(Imp(seed) as IntRes);
+                    if c.raw { raw_entries(&mut o, c) } else { through(&mut o, &mut direct, c) }
+                }
+                1 => {
+                    let ctx = CArc::from(5u8);
+                    let mut o = trait_obj!((Imp(seed), ctx) as IntRes);
+                    if c.raw { raw_entries(&mut o, c) } else { through(&mut o, &mut direct, c) }
+                }
+                _ => {
+                    let mut imp = Imp(seed);
+                    let mut o = trait_obj!(&mut imp as IntRes);
+                    if c.raw { raw_entries(&mut o, c) } else { through(&mut o, &mut direct, c) }
+                }
+            }
+        });
+        r?;
+        if !rep.clean() {
+            fail!(if rep.misuses.is_empty() { "generated-leak" } else { "alloc-misuse" }, "{}", rep.describe());
+        }
+        Ok(Info::new(!c.ok)
+            .class(format!("generated:method{}", c.method % 10))
+            .class(if c.raw { "generated:raw-entry" } else { "generated:trait-call" })
+            .class(if c.ok { "generated:Ok" } else { "generated:Err" }))
+    }
+
+    pub fn strategy() -> impl Strategy<Value = WCase> {
+        (
+            0u8..10,
+            any::<bool>(),
+            prop_oneof![2 => any::<i32>(), 2 => -40i32..40, 1 => prop::sample::select(vec![0, 1, -1, i32::MIN, i32::MAX, 0xffff, 2, 11])],
+            any::<u64>(),
+            0u8..3,
+            any::<bool>(),
+        )
+            .prop_map(|(method, ok, code, v, container, raw)| WCase { method, ok, code, v, container, raw })
+    }
+}
+
 pub fn strategy() -> impl Strategy<Value = Case> {
     (
         0u8..5,
@@ -294,7 +590,27 @@ pub fn run(ctx: &Ctx) -> i32 {
     if ctx.is_replay() {
         ctx.run("encode-decode", 1, strategy(), check);
         ctx.run("os-codes", 1, strategy(), check);
+        ctx.run("generated", 1, wrapped::strategy(), wrapped::check);
     } else {
+        // generated wrappers: the full product of methods x outcome x edge codes x containers x route
+        for method in 0..10u8 {
+            for ok in [true, false] {
+                for code in [0, 1, -1, 2, 0xffff, i32::MIN, i32::MAX, 13, -5] {
+                    for container in 0..3u8 {
+                        for raw in [false, true] {
+                            let c = wrapped::WCase { method, ok, code, v: 0x1234_5678_9abc, container, raw };
+                            if !ctx.eval("generated", &c, wrapped::check) {
+                                return ctx.finish(RULE, &[], false);
+                            }
+                        }
+                    }
+                }
+            }
+        }
+        ctx.run("generated", ctx.n(20_000, 300_000), wrapped::strategy(), wrapped::check);
+        if ctx.failed() {
+            return ctx.finish(RULE, &[], false);
+        }
         // the full product of shapes, deterministically
         for err in 0..5u8 {
             for payload in 0..3u8 {
@@ -318,4 +634,4 @@ pub fn run(ctx: &Ctx) -> i32 {
     ctx.finish(RULE, &["the output slot is pre-filled with a byte pattern; 'untouched' means byte-identical afterwards"], false)
 }
 
-const RULE: &str = "Result<T,E> with T in {(), u64, droppable heap token} x E in {io::Error from raw OS code, io::Error of a non-OS kind, (), fmt::Error, user IntError} x {Ok, Err} x {free functions, IntResult methods}: full product with edge codes enumerated, then random; plus all edge OS codes and a long pseudo-random stream of i32 codes through encode->decode. Oracle: code==0 iff Ok; on Ok the slot holds the very value (token identity) and it is dropped exactly once after decoding; on Err the poisoned slot is byte-identical afterwards and no value was created or dropped; decoding non-zero yields Err with the same OS code / user code; no shipped error encodes to 0. Non-trivial = Err, or Ok with a droppable payload";
+const RULE: &str = "Result<T,E> with T in {(), u64, droppable heap token} x E in {io::Error from raw OS code, io::Error of a non-OS kind, (), fmt::Error, user IntError} x {Ok, Err} x {free functions, IntResult methods}: full product with edge codes enumerated, then random; plus all edge OS codes and a long pseudo-random stream of i32 codes through encode->decode. Oracle: code==0 iff Ok; on Ok the slot holds the very value (token identity) and it is dropped exactly once after decoding; on Err the poisoned slot is byte-identical afterwards and no value was created or dropped; decoding non-zero yields Err with the same OS code / user code; no shipped error encodes to 0. GENERATED half: a #[cglue_trait] with #[int_result] methods (Ok type (), u64, droppable token; error type user IntError with many codes, io::Error, (); by-ref, by-mut and consuming receivers; trait-level and method-level attribute; #[no_int_result] control) called through boxed / boxed+context / by-mut-reference opaque objects and compared with the direct call (variant AND error code), and the vtable entries called directly the way C does: status 0 iff Ok, the status is the error's own code, poisoned output slot untouched on Err, holding the very value on Ok (dropped once). Non-trivial = Err, or Ok with a droppable payload";
